@@ -59,4 +59,26 @@ CLAIMED = {
              "outstanding or on a captured exception; runner counts are >= 1.",
         note="does not decide the enqueue/empty-queue race itself nor delivery inside moodycamel queues and the task set",
     ),
+    "C02": dict(
+        technique="dominance / must-pass-through / guard rules over clang CFGs (counter increments vs hand-offs, decrements vs bodies, wait exits)",
+        text="Decides the accounting clause on every path: work is counted before it is handed to the pool (same count, same iteration; futures and "
+             "continuations tied to a set included), each packaged wrapper decrements exactly once after the body even when it throws (release), a "
+             "future publishes readiness before it uncounts itself, wait() returns only on an acquire observation of zero, tryWait() returns true only "
+             "then, destructors wait.",
+        note="does not decide that the pool runs each queued task (C01) nor interleavings",
+    ),
+    "C05": dict(
+        technique="lexical try/catch structure + guard-dominance over clang CFGs of the exception state machine",
+        text="Every body invocation in packaged wrappers and invokeInline sits in try/catch(...) whose catch-all records the exception; the exception "
+             "slot is written only by the CAS winner and published by a release store; it is read only under an acquire observation of kSet and the guard "
+             "is reset before rethrow; wait/tryWait consult exceptions only after observing completion.",
+        note="EH edges are not in clang's CFG: throwing paths are reasoned about through the lexical handler structure",
+    ),
+    "C29": dict(
+        technique="ownership typestate with disposer summaries + lexical try/catch + per-iteration guard rules over clang CFGs",
+        text="A OnceFunction payload of a packaged task or of a schedule() entry point is consumed on every path including the cancelled/skipped one "
+             "(disposer summaries are computed, not named); wait() cleans up every discarded item; runner loops re-check hasException() each iteration; "
+             "stage invocations are covered by a catch-all that records the exception.",
+        note="memory held inside moodycamel queues and which exception is rethrown (C05) are not decided here",
+    ),
 }
